@@ -191,7 +191,34 @@ def check_absent_forms(ctx):
                           {'year': year, 'form': fname})
 
 
+def shard_real(ctx, k, payload):
+    """real returns: a solve may stop because a form is not supported or a value is rejected, but never because a form,
+    line, input or table that a definition names does not resolve (KeyError / NameError / AttributeError, a missing
+    threshold table) - form references made through the solver (`s.form(name)`) only show with a real solver"""
+    from hx import scenario
+    n, seed = payload
+
+    def body(data):
+        fs = data.draw(st.sampled_from([['1040'], ['1040', 'nc_d-400'], ['1040', 'nc_d-400'], ['nc_d-400']]))
+        p = data.draw(scenario.personas(forms=fs))
+        sc, r = scenario.build(p, data.draw)
+        ctx.case()
+        ctx.count('real:solves')
+        e = r.exc
+        if e is None:
+            ctx.nt(f'real|{sc["year"]}|{sc["forms"]}|{len(r.values)}')
+            return
+        bad = isinstance(e, (KeyError, NameError, AttributeError, IndexError)) or (isinstance(e, AssertionError) and 'hreshold' in str(e))
+        if bad:
+            ctx.violation(f'real:unresolved:{type(e).__name__}:{str(e)[:40]}', f'{sc["year"]} {sc["forms"]}: Solver.solve() raised {e!r} - a name a definition refers to does not resolve',
+                          {'real': {'year': sc['year'], 'forms': sc['forms'], 'inputs': sc['inputs']}})
+        else:
+            ctx.count('real:abort:' + type(e).__name__)
+    hyp.run_data(body, n, seed)
+
+
 def run(ctx):
+    hyp.pmap(ctx, shard_real, [((160 if ctx.tier == 'quick' else 4000) // 8, ctx.seed * 1000 + 600 + k) for k in range(8)])
     n = 25 if ctx.tier == 'quick' else 400
     payloads = []
     total_lines = 0
@@ -233,6 +260,13 @@ def run(ctx):
 
 
 def replay(ctx, case):
+    if 'real' in case:
+        from hx import scenario
+        r = scenario.resolve(case['real'], want_solution=False)
+        e = r.exc
+        if isinstance(e, (KeyError, NameError, AttributeError, IndexError)) or (isinstance(e, AssertionError) and 'hreshold' in str(e)):
+            ctx.violation(f'real:unresolved:{type(e).__name__}:{str(e)[:40]}', repr(e), case)
+        return
     if 'line' not in case:
         ctx.lists.setdefault('forms_deliberately_absent', set()).add(f'{case["year"]}:{case["form"]}')
         check_absent_forms(ctx)
